@@ -40,14 +40,15 @@ func init() { hqPool.cost = hqCost }
 
 func init() {
 	register(&Driver{
-		Name:     "hqflow",
-		Header:   "From ZenoV Require Import Lib.Harness Lib.Hex Queue.HopsPath Queue.Batcher Queue.QueueHarness.\n",
-		CaseType: "hcase",
-		Footer:   "\nDefinition DIFF := Eval vm_compute in hdiffs cases.\nPrint DIFF.\nDefinition MON := Eval vm_compute in hmons cases.\nPrint MON.\n",
-		Rule:     "one case = one run of the real hq source (consumer, producer, finisher, websocket goroutines, real gocrawlhq client) in its own process against a fake crawl HQ that answers the k-th add / delete / get request as a generated fault sequence says (O ok, 5 = 503, R = connection reset, S = stall until the client's 5 s timeout, L = accepted but the answer is lost; runs of 1..2 failures everywhere, and in ~30% of the cases an outage: the same add, delete or get request fails 3..6 times in a row before it succeeds): batch size 1..5, workers 1..25 (1 or 2 senders), 1..14 outlinks (texts from a pool incl. unparsable, non-ASCII, duplicates; hops 0..300) produced back to back with optional waits that force timer-triggered flushes, accepted URLs handed out again on get, seeds finished (0..2 children) or held by a plan; in ~22% of the cases the outlinks are what the REAL preprocess/postprocess return for a seed tree with a scripted archiver (page behind 0..3 redirects, links in the page's HTML and/or in the JSON document of a child asset), in ~35% finished seeds pass through the REAL finisher workers, in ~12% pause.Pause()/Resume() is called while a finisher worker is stuck handing a seed to the source during a DELETE outage; distinct by input; non-trivial when at least one request failed and was retried AND at least one batch left on the timer (smaller than the batch size)",
-		Gen:      genHQFlow,
-		Exec:     execHQFlow,
-		Shrink:   shrinkHQFlow,
+		Name:           "hqflow",
+		CaseTimeoutSec: 3600, // Exec of the first case waits for the child pool that pre-runs the whole batch
+		Header:         "From ZenoV Require Import Lib.Harness Lib.Hex Queue.HopsPath Queue.Batcher Queue.QueueHarness.\n",
+		CaseType:       "hcase",
+		Footer:         "\nDefinition DIFF := Eval vm_compute in hdiffs cases.\nPrint DIFF.\nDefinition MON := Eval vm_compute in hmons cases.\nPrint MON.\n",
+		Rule:           "one case = one run of the real hq source (consumer, producer, finisher, websocket goroutines, real gocrawlhq client) in its own process against a fake crawl HQ that answers the k-th add / delete / get request as a generated fault sequence says (O ok, 5 = 503, R = connection reset, S = stall until the client's 5 s timeout, L = accepted but the answer is lost; runs of 1..2 failures everywhere, and in ~30% of the cases an outage: the same add, delete or get request fails 3..6 times in a row before it succeeds): batch size 1..5, workers 1..25 (1 or 2 senders), 1..14 outlinks (texts from a pool incl. unparsable, non-ASCII, duplicates; hops 0..300) produced back to back with optional waits that force timer-triggered flushes, accepted URLs handed out again on get, seeds finished (0..2 children) or held by a plan; in ~22% of the cases the outlinks are what the REAL preprocess/postprocess return for a seed tree with a scripted archiver (page behind 0..3 redirects, links in the page's HTML and/or in the JSON document of a child asset), in ~35% finished seeds pass through the REAL finisher workers, in ~12% pause.Pause()/Resume() is called while a finisher worker is stuck handing a seed to the source during a DELETE outage; distinct by input; non-trivial when at least one request failed and was retried AND at least one batch left on the timer (smaller than the batch size)",
+		Gen:            genHQFlow,
+		Exec:           execHQFlow,
+		Shrink:         shrinkHQFlow,
 	})
 }
 
